@@ -15,12 +15,12 @@ META = {
         "vertices and >=1 edge; distinct = graph (small) or (n, #edges, #orderings)."
     ),
     "floors": {
-        "quick": {"evaluations": 10000, "mon.all": 5000, "mon.one": 5000, "mon.insitu": 10},
+        "quick": {"evaluations": 10000, "mon.all": 5000, "mon.one": 5000, "mon.insitu": 10, "duplicate_constraint_presentations": 200},
         "thorough": {"evaluations": 140000, "mon.all": 70000, "mon.one": 70000, "mon.insitu": 100},
     },
     "exhaustive": {"quick": True, "thorough": True},
     "space": {"quick": "all digraphs on <=3 vertices (self-loops included) + 5k random on 4 + random up to 7", "thorough": "all 65 536 digraphs on 4 vertices and all smaller ones; random digraphs and DAGs up to 7 vertices"},
-    "assumptions": ["every vertex is a key of the graph dict (the documented input format)"],
+    "assumptions": ["every vertex is a key of the graph dict (the documented input format)", "the same directed graph is also presented with successor lists that state a constraint twice (as the repository's tests pass lists); the expected orderings are those of the underlying graph"],
     "timeout": {"quick": 420, "thorough": 3600},
 }
 
@@ -68,10 +68,24 @@ def judge_one(graph, returned):
     return []
 
 
+def as_lists(graph, rng):
+    """The same directed graph presented with successor LISTS in which some constraints are stated twice."""
+    out = {}
+    for k, v in graph.items():
+        lst = list(v)
+        for x in list(v):
+            if rng.random() < 0.5:
+                lst.append(x)
+        rng.shuffle(lst)
+        out[k] = lst
+    return out
+
+
 def check_graph(ctx, graph, monitor_prefix="C19", extra=None):
     import superrec2.utils.toposort as TS
 
-    case = {"kind": "graph", "graph": {str(k): sorted(v, key=repr) for k, v in graph.items()}}
+    case = {"kind": "graph", "graph": {str(k): (sorted(v, key=repr) if isinstance(v, (set, frozenset)) else list(v)) for k, v in graph.items()},
+            "lists": not all(isinstance(v, (set, frozenset)) for v in graph.values())}
     if extra:
         case.update(extra)
     snap = copy.deepcopy(graph)
@@ -146,7 +160,14 @@ def run(ctx, spec):
             idx += 1
             if idx % spec["n"] != spec["i"]:
                 continue
-            check_graph(ctx, graph_from_bits(n, bits, names))
+            g = graph_from_bits(n, bits, names)
+            check_graph(ctx, g)
+            if n <= 3 or idx % 16 == spec["i"] % 16:
+                lr = ctx.rng("lists", idx)
+                gl = as_lists(g, lr)
+                if any(len(v) != len(set(v)) for v in gl.values()):
+                    ctx.count("duplicate_constraint_presentations")
+                    check_graph(ctx, gl)
             if ctx.too_many():
                 return
     rng = ctx.rng("rand")
@@ -169,6 +190,9 @@ def run(ctx, spec):
             rng.shuffle(items)
             g = dict(items)
         check_graph(ctx, g)
+        if rng.random() < 0.4:
+            ctx.count("duplicate_constraint_presentations")
+            check_graph(ctx, as_lists(g, rng))
         if ctx.too_many():
             return
 
@@ -226,5 +250,6 @@ def replay(ctx, case):
     def key(k):
         return int(k) if k.lstrip("-").isdigit() else k
 
-    g = {key(k): set(v) for k, v in case["graph"].items()}
+    conv = (lambda v: [key(x) if isinstance(x, str) else x for x in v]) if case.get("lists") else (lambda v: {key(x) if isinstance(x, str) else x for x in v})
+    g = {key(k): conv(v) for k, v in case["graph"].items()}
     check_graph(ctx, g)
